@@ -183,12 +183,63 @@ def build_reuse(ctx, idx=None):
     return L, ops, flav
 
 
+def build_cache(ctx):
+    """directory-cache volumes: a directory whose cache spans several blocks loses and gains records (cache blocks are released and
+    allocated) while bystander files are created, grown and deleted next to it"""
+    rng = ctx.rng
+    flav = rng.choice([4, 5])
+    bs = 512 if flav & 1 else 488
+    W = hexs(b"work")
+    L = gen.dev_create("DD", flav) + ["mountdev 0", "mount 0 0", "mkdir - %s" % W,
+        "open 0 - %s w" % hexs(b"bystander"), "write 0 3 %d" % (5 * bs), "close 0"]
+    exact = rng.random() < 0.5
+    n = rng.choice([13, 25, 37]) if exact else rng.choice([13, 14, 15, 16, 25, 26, 27, 37])
+    # 14-byte names: 40-byte records, 12 per cache block: with 13 / 25 / 37 entries the last cache block holds a single record
+    names = [(b"entry_%02d_" % i + b"abcdefghijklmnopqrstuvwxyz")[:14 if exact else rng.choice([14, 14, 22, 30])] for i in range(n)]
+    for nm in names:
+        L += ["mkdir %s %s" % (W, hexs(nm))] if rng.random() < 0.5 else ["open 0 %s %s w" % (W, hexs(nm)), "close 0"]
+    L += ["dump $W/start", "wlog $W/wlog full"]
+    ops = []
+    seq = []
+    alive = list(names)
+    if exact:
+        # the entry that is alone in the last cache block goes; then a bystander is created; then the cache of the directory changes again
+        seq += ["rm %s %s" % (W, hexs(alive.pop(-1))), "open 1 - %s w" % hexs(b"victim"), "write 1 7 %d" % rng.choice([0, 10, 3 * bs]), "close 1",
+                "mkdir %s %s" % (W, hexs(b"another_entry_"))]
+        alive.append(b"another_entry_")
+    for step in range(rng.randint(2, 10)):
+        r = rng.random()
+        if r < 0.4 and alive:
+            nm = alive.pop(rng.choice([-1, -1, 0, rng.randrange(len(alive))]))
+            seq.append("rm %s %s" % (W, hexs(nm)))
+        elif r < 0.6:
+            v = b"victim%d" % step
+            seq += ["open 1 - %s w" % hexs(v), "write 1 7 %d" % rng.choice([0, 10, 3 * bs]), "close 1"]
+        elif r < 0.8:
+            nm = b"another_%02d_with_a_long_name" % step
+            seq.append("mkdir %s %s" % (W, hexs(nm)))
+            alive.append(nm)
+        elif alive:
+            nm = rng.choice(alive)
+            seq.append(rng.choice(["comment %s %s %s" % (W, hexs(nm), hexs(b"c" * rng.choice([1, 40, 79]))),
+                                   "mv %s %s - %s" % (W, hexs(nm), hexs(b"moved%d" % step))]))
+            if seq[-1].startswith("mv"):
+                alive.remove(nm)
+    for cmd in seq:
+        L.append("wmark %d" % len(ops))
+        L.append(cmd)
+        ops.append(cmd)
+    L += ["wlog off", "umount", "umountdev"]
+    return L, ops, flav
+
+
 def run(ctx):
     proof = common.proof_status(ctx)
     nh = 10 if ctx.tier == "quick" else 300
     nr = 20 if ctx.tier == "quick" else 400
-    for hi in range(nh + nr):
-        L, ops, flav = build(ctx) if hi < nh else build_reuse(ctx, hi - nh)
+    nc = 20 if ctx.tier == "quick" else 400
+    for hi in range(nh + nr + nc):
+        L, ops, flav = build(ctx) if hi < nh else (build_reuse(ctx, hi - nh) if hi < nh + nr else build_cache(ctx))
         rc, out, err, wd = common.run_script(ctx, "\n".join(L) + "\n", timeout=300)
         ctx.count(("hist", hi, hash(tuple(L))))
         ctx.bump("history")
